@@ -97,6 +97,53 @@ Definition syncb_op (a : list val) : val :=
   | _ => vbad
   end.
 
+(* bufio.ops <script> <size> <ops>: a sequence of bufio.Reader calls on the MODEL (Model/Bufio.v) vs the
+   real bufio.Reader, result of every call compared.  ops: [0] ReadByte, [1] UnreadByte, [2 n] Peek n,
+   [3 k] Read into k bytes.  results: ReadByte [0 b] | [1 e]; UnreadByte [0] | [1 e];
+   Peek [0 bytes] | [1 e]; Read [bytes e] (e = 0 for nil).  Ties the transcription of bufio to the real one
+   on every branch (also those Sync never reaches). *)
+Fixpoint bufio_run (fuel : nat) (b : Bufio.breader) (l : list val) : list val :=
+  match l with
+  | [] => []
+  | o :: t =>
+    let stop (v : val) := [v] in
+    match o with
+    | VL [VI 0%Z] =>
+      match Bufio.read_byte b with
+      | Ok (inl c, b') => VL [VI 0%Z; vn c] :: bufio_run fuel b' t
+      | Ok (inr e, b') => VL [VI 1%Z; vn e] :: bufio_run fuel b' t
+      | Err e => stop (VL [VI 1%Z; vn e]) | Panic => stop (VL [VI 2%Z]) | Diverge => stop (VL [VI 3%Z])
+      end
+    | VL [VI 1%Z] =>
+      match Bufio.unread_byte b with
+      | Ok (None, b') => VL [VI 0%Z] :: bufio_run fuel b' t
+      | Ok (Some e, b') => VL [VI 1%Z; vn e] :: bufio_run fuel b' t
+      | Err e => stop (VL [VI 1%Z; vn e]) | Panic => stop (VL [VI 2%Z]) | Diverge => stop (VL [VI 3%Z])
+      end
+    | VL [VI 2%Z; VI n] =>
+      match Bufio.peek (zN n) b with
+      | Ok (inl bs, b') => VL [VI 0%Z; VB bs] :: bufio_run fuel b' t
+      | Ok (inr e, b') => VL [VI 1%Z; vn e] :: bufio_run fuel b' t
+      | Err e => stop (VL [VI 1%Z; vn e]) | Panic => stop (VL [VI 2%Z]) | Diverge => stop (VL [VI 3%Z])
+      end
+    | VL [VI 3%Z; VI k] =>
+      match Bufio.read (Z.to_nat k) b with
+      | Ok ((d, e), b') => VL [VB d; verr e] :: bufio_run fuel b' t
+      | Err e => stop (VL [VI 1%Z; vn e]) | Panic => stop (VL [VI 2%Z]) | Diverge => stop (VL [VI 3%Z])
+      end
+    | _ => stop vbad
+    end
+  end.
+Definition bufio_ops_op (a : list val) : val :=
+  match a with
+  | [VL sc; VI size; VL l] =>
+    match script_of sc with
+    | Some s => VL (bufio_run O (Bufio.new_reader (Z.to_nat size) (PacketWriter.Script s)) l)
+    | None => vbad
+    end
+  | _ => vbad
+  end.
+
 (* ---- C17 ----
    predicate oracles: kind 0 done when len >= k; 1 never; 2 always; 3 fails (error 62) when len >= k;
    4 (true, error 62) when len >= k (the error has priority); 5 done when the last byte equals k mod 256;
@@ -152,6 +199,7 @@ Definition acc_op (a : list val) : val :=
 Definition ops : list op := [
   ("io.sync", sync_op);
   ("io.syncb", syncb_op);
+  ("bufio.ops", bufio_ops_op);
   ("pw.write", write_op);
   ("pw.readfrom", readfrom_op);
   ("acc.run", acc_op)
